@@ -10,6 +10,8 @@ creation order).  Keys are small ints (`'k<i>'` in the implementation), values s
 ints / strings / lists, sub-container names small ints (`'s<i>'`; names >= 10 are `'k<i-10>'`, i.e. equal to a
 key name, used only by the name-collision stream).
 """
+import json
+import multiprocessing
 import os
 import shutil
 import tempfile
@@ -160,6 +162,8 @@ def exc_name(e):
 
 def apply_op(caches, op):
     """apply one op to the list of real caches; returns the JSON-able output"""
+    if op[0] >= len(caches):     # an earlier create_subcache failed on the real classes
+        return {'err': 'noSuchCache'}
     c = caches[op[0]]
     name = op[1]
     try:
@@ -404,7 +408,7 @@ def nontrivial(ops):
     return read_after_write and spice
 
 
-def check_case(res, storage, ops, mod, threaded=False):
+def check_case(res, storage, ops, mod, threaded=False, pre=None):
     """one (storage, ops) pair: impl vs oracle (property) and impl vs model (correspondence)"""
     unique = storage != 'Storage'
     case = {'part': 'cache', 'storage': storage, 'ops': ops, 'threaded': threaded}
@@ -417,7 +421,7 @@ def check_case(res, storage, ops, mod, threaded=False):
         res.count('cache.with-close')
     if any(o[0] > 0 for o in ops):
         res.count('cache.with-subcache-ops')
-    impl, post = run_impl(storage, ops, threaded=threaded)
+    impl, post = pre if pre is not None else run_impl(storage, ops, threaded=threaded)
     orc = run_oracle(ops, unique)
     sig, detail = classify(storage, ops, impl, post, orc)
     if sig:
@@ -427,7 +431,13 @@ def check_case(res, storage, ops, mod, threaded=False):
                 return False
             i2, p2 = run_impl(storage, c, threaded=threaded)
             return classify(storage, c, i2, p2, run_oracle(c, unique))[0] == sig
-        small = shrink(ops, fails)
+        shrunk = getattr(res, '_shrunk', None)
+        if shrunk is None:
+            shrunk = res._shrunk = set()
+        small = ops
+        if (sig, storage) not in shrunk:     # shrink only the first failure of each kind
+            shrunk.add((sig, storage))
+            small = shrink(ops, fails)
         small = fix_cids([[o[0], 'sub' if o[1] == 'sub_dup' else o[1]] + list(o[2:]) for o in small])
         i2, p2 = run_impl(storage, small, threaded=threaded)
         sig2, detail2 = classify(storage, small, i2, p2, run_oracle(small, unique))
@@ -464,7 +474,21 @@ CORPUS = [
 ]
 
 
-def run_cases(ctx, cases, use_model=True, storages=STORAGES):
+def _impl_job(job):
+    core.use_repo()
+    return run_impl(job[0], job[1])
+
+
+def load_corpus_files():
+    out = []
+    for f in sorted((core.CORPUS_DIR / 'C20').glob('*.json')):
+        c = json.loads(f.read_text())
+        if c.get('part') == 'cache' and not c.get('threaded'):
+            out.append(c['ops'])
+    return out
+
+
+def run_cases(ctx, cases, use_model=True, storages=STORAGES, procs=1):
     """cases: list of op lists. Every case is run on every storage class."""
     res = core.Result()
     jobs = []
@@ -476,20 +500,26 @@ def run_cases(ctx, cases, use_model=True, storages=STORAGES):
     if use_model and jobs:
         mods = core.run_driver('C20', [{'k': 'cache', 'unique': st != 'Storage', 'ops': model_ops(ops, st != 'Storage')}
                                        for st, ops in jobs])
-    for (st, ops), mod in zip(jobs, mods):
-        check_case(res, st, ops, mod)
+    pres = [None] * len(jobs)
+    if procs > 1 and len(jobs) > 50:
+        with multiprocessing.get_context('fork').Pool(procs) as pool:
+            pres = pool.map(_impl_job, jobs, chunksize=16)
+    for (st, ops), mod, pre in zip(jobs, mods, pres):
+        check_case(res, st, ops, mod, pre=pre)
     return res
 
 
 def run(ctx):
     rng = ctx.sub_rng('cache')
-    n = 120 if ctx.quick else 4000
-    cases = [c for _, c in CORPUS]
+    n = 300 if ctx.quick else 6000
+    procs = 8 if ctx.quick else 14
+    cases = [c for _, c in CORPUS] + load_corpus_files()
     cases += [gen_ops(rng, 14 if ctx.quick else 24) for _ in range(n)]
-    res = run_cases(ctx, cases)
+    res = run_cases(ctx, cases, procs=procs)
     # name-collision stream (keys named like sub-containers): known finding for Hdf5Storage
     rng2 = ctx.sub_rng('cache-collide')
-    res.merge(run_cases(ctx, [gen_ops(rng2, 10, collide=True) for _ in range(25 if ctx.quick else 400)]))
+    res.merge(run_cases(ctx, [gen_ops(rng2, 10, collide=True) for _ in range(40 if ctx.quick else 600)],
+                        procs=procs))
     return res
 
 
